@@ -21,14 +21,17 @@ from common import VERIF
 from autofit import exc as af_exc
 from autofit.non_linear.fitness import Fitness
 from autofit.non_linear.parallel import SneakyPool, Process
-from autofit.non_linear.parallel.process import AbstractJob, AbstractJobResult
+from autofit.non_linear.parallel.process import AbstractJob, AbstractJobResult, StopCommand
 import autofit.non_linear.initializer as initializer_module
 
 RULE = (
     "generated sessions: SneakyPool.map (P=1..4 workers, 1..4 successive batches of 0..12 inputs on one pool, "
     "failing inputs at random/every position, three call styles: plain function / fitness mapped / fitness as "
     "argument), Process.run_jobs (1..4 workers, 0..12 jobs, failing jobs, stale empty() answers), "
-    "Initializer.samples_from_model(n_cores=2..4) with rejected and failing points; schedules: uniform random, "
+    "Initializer.samples_from_model(n_cores=2..4) with rejected and failing points; map along schedules with a known "
+    "number of fair rounds (at / above / below the bound 4nP+1, unfair prefixes); whole pool sessions (start, 0..2 "
+    "batches, the real __del__ along caller-first / workers-first / mixed / starving schedules, then fair rounds); "
+    "the stop tokens and live workers of every run_jobs case at return and after two fair rounds; schedules: uniform random, "
     "bursts, one slow worker, workers in reverse order, caller-first, plain round-robin. non-trivial = at least 2 "
     "workers and 2 inputs in one batch and (workers evaluated the inputs in an order different from the input "
     "order, or an input failed, or more than one batch); distinct = hash of (kind, P, outcomes, schedule)"
@@ -149,7 +152,7 @@ def real_map_session(P, mode, batches):
                     "evaluated": sorted(u for _, u in log),
                     "eval_order": [u for _, u in log],
                     "arrival": [canon_arrival(x) for x in sched.caller_took[n_took:]],
-                    "turns": sched.turns,
+                    "turns": sched.turns, "rr_used": sched.rr, "sched_pos": sched.pos,
                 })
                 if stuck:
                     break
@@ -264,6 +267,254 @@ def one_map_case(ctx, case, label="gen"):
 
 
 # ---------------------------------------------------------------------------------------------
+# termination under fair schedules (theorem map_terminates_under_every_fair_schedule)
+
+
+def fair_rounds(P, sched):
+    """complete fair rounds (every actor 0..P at least once), counted greedily from the left"""
+    n, missing = 0, set(range(P + 1))
+    for e in sched:
+        missing.discard(e)
+        if not missing:
+            n, missing = n + 1, set(range(P + 1))
+    return n
+
+
+def gen_fair_case(rng):
+    P = rng.choice([1, 2, 2, 3])
+    n = rng.choice([0, 1, 2, 3, 4, 5, 6])
+    bound = 4 * n * P + 1
+    rounds = rng.choice([bound, bound, bound + rng.randint(1, 3), rng.randint(0, 6), rng.randint(0, 2 * n + 2)])
+    sched = []
+    if rng.random() < 0.3:  # an unfair stretch first: one actor is not served at all
+        absent = rng.randint(0, P)
+        sched += [rng.choice([a for a in range(P + 2) if a != absent]) for _ in range(rng.randint(1, 12))]
+    for _ in range(rounds):
+        r = list(range(P + 1))
+        rng.shuffle(r)
+        for _ in range(rng.choice([0, 0, 0, 1, 2, 4])):  # a round may serve actors several times, in any order
+            r.insert(rng.randrange(len(r) + 1), rng.randint(0, P))
+        sched += r
+    return {"kind": "fair", "P": P, "mode": rng.choice(MODES), "js": gen_outcomes(rng, n), "sched": sched}
+
+
+def one_fair_case(ctx, case, label="gen"):
+    """`map` along a schedule with a known number of fair rounds: when the schedule contains the rounds the
+    theorem asks for, the real `map` has returned before the schedule is used up (no round-robin continuation)"""
+    P, js, schedule = case["P"], case["js"], case["sched"]
+    script, obs, extra = real_map_session(P, case["mode"], [{"js": js, "sched": schedule}])
+    ob = obs[0]
+    ans = ctx.lean.ask({"p": "C14", "q": "fair", "P": P, "js": [[o, i] for i, o in enumerate(js)], "sched": schedule})
+    if "driver_error" in ans:
+        ctx.disagree("C14.driver", case, None, ans)
+        return
+    within = (not ob["stuck"]) and ob["rr_used"] == 0
+    enough = ans["fair_rounds"] >= ans["bound"]
+    ctx.case({"kind": "fair", "P": P, "js": js, "sched": schedule}, nontrivial=bool(P >= 2 and len(js) >= 2 and enough),
+             sample={"kind": "fair", "P": P, "js": js, "fair_rounds": ans["fair_rounds"], "bound": ans["bound"],
+                     "returned_within_schedule": within})
+    ctx.hit("fair:rounds>=bound" if enough else "fair:rounds<bound")
+    if ans["fair_rounds"] != fair_rounds(P, schedule) or ans["bound"] != 4 * len(js) * P + 1:
+        ctx.disagree("C14.fair.rounds", dict(case, label=label), [fair_rounds(P, schedule), 4 * len(js) * P + 1],
+                     [ans["fair_rounds"], ans["bound"]])
+    if ans["phi_end"] > ans["phi_start"] or (enough and not ans["finished"]):
+        ctx.disagree("C14.fair.model-contradicts-theorem", dict(case, label=label), None, ans)
+    if enough and not within:
+        ctx.disagree("C14.fair.returned-within-schedule", dict(case, label=label), within, ans["finished"])
+        ctx.fail("C14-map-not-within-fair-bound",
+                 f"SneakyPool.map has not returned after {ans['fair_rounds']} fair rounds of the schedule (bound {ans['bound']})",
+                 dict(case, label=label), {"stuck": ob["stuck"], "round_robin_turns_needed": ob["rr_used"]})
+    if not enough:
+        soft(ctx, "map: returned within the given schedule (fewer fair rounds than the bound)", within == ans["finished"])
+    if within and ans["finished"]:
+        impl = {"yielded": [canon_value(v) for v in ob["yielded"]], "raised": ob["raised"], "leftover": ob["leftover"]}
+        model = {"yielded": [list(script.value(u)) for u in ans["yielded"]], "raised": ans["raised"], "leftover": ans["leftover"]}
+        if impl != model:
+            ctx.disagree("C14.fair.map", dict(case, label=label), impl, model)
+    map_oracle(ctx, script, ob, dict(case, label=label), set())
+
+
+# ---------------------------------------------------------------------------------------------
+# start-up and shutdown (SneakyPool.__init__ / __del__, the stop tokens of Process.run_jobs)
+
+
+def _pool_snapshot(pool, sched):
+    out = []
+    for proc in pool.processes:
+        items = list(proc.job_queue.items)
+        out.append({"alive": bool(sched.is_alive(proc)), "stops": sum(1 for x in items if x is StopCommand),
+                    "results": len(proc.queue.items), "jobs": sum(1 for x in items if x is not StopCommand)})
+    return out
+
+
+def real_life_session(P, mode, batches, dels, rounds):
+    """start a pool, run the batches, then the REAL `__del__` along exactly `dels`; then `rounds` fair rounds"""
+    global _SCRIPT
+    sched = S.Sched()
+    script = Script(sched)
+    _SCRIPT = script
+    fitness = ScriptedFitness()
+    res = {"batches": [], "stuck": False, "at_start": None, "at_end_of_schedule": None, "after_rounds": None, "del_raised": None}
+    with S.fake_multiprocessing(sched):
+        pool = SneakyPool(processes=P, fitness=fitness, paths=None)
+        try:
+            res["at_start"] = _pool_snapshot(pool, sched)
+            for b, batch in enumerate(batches):
+                uids = [b * 100 + i for i in range(len(batch["js"]))]
+                for u, o in zip(uids, batch["js"]):
+                    script.outcome[u] = o
+                function, args_list = call_style(mode, fitness, uids)
+                sched.begin(batch["sched"])
+                out, raised = [], None
+                try:
+                    for r in pool.map(function, args_list, log_info=False):
+                        out.append(r)
+                except ScriptedError as e:
+                    raised = e.uid
+                res["batches"].append({"uids": uids, "yielded": out, "raised": raised})
+            sched.begin(dels)
+            try:
+                pool.__del__()
+            except S.Abort:
+                raise
+            except Exception as e:  # noqa
+                res["del_raised"] = f"{type(e).__name__}:{str(e)[:60]}"
+            n = len(dels)
+            while sched.pos < n:
+                sched.idle()
+            res["at_end_of_schedule"] = _pool_snapshot(pool, sched)
+            sched.drain((list(range(P + 1))) * rounds)
+            res["after_rounds"] = _pool_snapshot(pool, sched)
+        except S.Abort:
+            res["stuck"] = True
+        finally:
+            sched.shutdown()
+            del pool
+    res["worker_errors"] = sched.worker_errors
+    return script, res
+
+
+def gen_life_case(rng):
+    P = rng.choice([1, 2, 2, 3, 4])
+    batches = []
+    for _ in range(rng.choice([0, 1, 1, 2])):
+        n = rng.choice([0, 1, 2, 3, 5])
+        batches.append({"js": gen_outcomes(rng, n), "sched": gen_schedule(rng, P, n)})
+    kind = rng.choice(["caller-first", "workers-first", "mixed", "mixed", "starve-one"])
+    workers = list(range(1, P + 1))
+    if kind == "caller-first":
+        dels = [0] * P + [rng.choice(workers) for _ in range(rng.randint(0, 2 * P))]
+    elif kind == "workers-first":
+        dels = [rng.choice(workers) for _ in range(rng.randint(1, 2 * P))] + [0] * P
+    elif kind == "starve-one":
+        starved = rng.choice(workers)
+        dels = [rng.choice([a for a in range(P + 1) if a != starved]) for _ in range(rng.randint(P, 4 * P + 2))]
+    else:
+        dels = [rng.randint(0, P) for _ in range(rng.randint(0, 5 * P + 2))]
+    return {"kind": "life", "P": P, "mode": rng.choice(MODES), "batches": batches, "del_sched": dels}
+
+
+def one_life_case(ctx, case, label="gen"):
+    P, batches = case["P"], case["batches"]
+    dels = list(case["del_sched"])
+    dels += [0] * max(0, P - dels.count(0))  # __del__ itself runs to its end inside the schedule
+    rounds = 2
+    script, res = real_life_session(P, case["mode"], batches, dels, rounds)
+    case = dict(case, label=label)
+    ans = ctx.lean.ask({"p": "C14", "q": "life", "P": P, "fuel": 400, "rounds": rounds, "del_sched": dels, "batches": [
+        {"js": [[o, b * 100 + i] for i, o in enumerate(batch["js"])], "sched": [abs(e) for e in batch["sched"]]}
+        for b, batch in enumerate(batches)]})
+    if "driver_error" in ans:
+        ctx.disagree("C14.driver", case, None, ans)
+        return
+    ctx.case({"kind": "life", "P": P, "batches": batches, "del_sched": dels},
+             nontrivial=bool(P >= 2 and len(set(dels)) >= 3),
+             sample={"kind": "pool-session", "P": P, "batches": [b["js"] for b in batches], "del_sched": dels,
+                     "at_end_of_schedule": res["at_end_of_schedule"], "after_rounds": res["after_rounds"]})
+    ctx.hit(f"life:P={P}")
+    ctx.hit(f"life:batches={len(batches)}")
+    if any("err" in b["js"] for b in batches):
+        ctx.hit("life:after-a-failing-batch")
+    if res["worker_errors"]:
+        ctx.fail("C14-worker-crash", "a worker loop crashed", case, res["worker_errors"])
+    if res["stuck"] or res["del_raised"]:
+        ctx.fail("C14-shutdown-no-return", "a pool session (map calls, then __del__) does not come to its end although every "
+                 "process is served fairly", case, {"stuck": res["stuck"], "raised_in_del": res["del_raised"]})
+        return
+    # --- start-up: P processes running, nothing queued (newPool P)
+    if res["at_start"] != [{"alive": True, "stops": 0, "results": 0, "jobs": 0}] * P:
+        ctx.disagree("C14.life.start", case, res["at_start"], "P running processes, empty queues")
+        ctx.fail("C14-startup", "a started SneakyPool does not consist of P running processes with empty queues", case, res["at_start"])
+    # --- the batches still return their serial results (the session is a session of the property)
+    for b, rec in enumerate(res["batches"]):
+        want_out, want_exc = script.serial(rec["uids"])
+        if rec["yielded"] != want_out or rec["raised"] != want_exc:
+            ctx.fail("C14-map-results", "SneakyPool.map does not return the serial results", dict(case, batch=b),
+                     {"got": rec["yielded"], "want": want_out, "raised": rec["raised"]})
+    m1, m2 = ans["at_end_of_schedule"], ans["after_rounds"]
+    r1, r2 = res["at_end_of_schedule"], res["after_rounds"]
+    # --- safety, at the end of an arbitrary schedule: no result, no job; one StopCommand per process, taken or not
+    inv_impl = [[w["results"], w["jobs"], w["stops"] + (0 if w["alive"] else 1)] for w in r1]
+    inv_model = [[w["results"], w["jobs"], w["stops"] + (0 if w["alive"] else 1)] for w in m1["workers"]]
+    if inv_impl != inv_model:
+        ctx.disagree("C14.life.invariant", case, inv_impl, inv_model)
+    if any(w["results"] or w["jobs"] for w in r1):
+        ctx.fail("C14-shutdown-leftover", "results or jobs are on the pool's queues while it shuts down after map returned", case, r1)
+    if any(w["stops"] + (0 if w["alive"] else 1) != 1 for w in r1):
+        ctx.fail("C14-shutdown-stop-commands", "after __del__ a process has not been sent exactly one StopCommand "
+                 "(or has left without taking one)", case, r1)
+    soft(ctx, "shutdown: which processes have left at the end of the given schedule", [w["alive"] for w in r1] == [w["alive"] for w in m1["workers"]])
+    # --- liveness: after fair rounds nobody runs, nothing is queued
+    down_impl = not any(w["alive"] or w["stops"] or w["results"] or w["jobs"] for w in r2)
+    if down_impl != m2["down"]:
+        ctx.disagree("C14.life.down", case, r2, m2)
+    if not down_impl:
+        ctx.fail("C14-shutdown-incomplete", "after __del__ and fair service of every process a process is still running or "
+                 "something is still queued", case, r2)
+    if not m2["down"] or m1["results"] != 0:
+        ctx.disagree("C14.life.model-contradicts-theorem", case, None, ans)
+
+
+def runjobs_shutdown_obs(sched, P, stuck):
+    """after Process.run_jobs has returned or raised: the shared queue and the workers, then two fair rounds"""
+    if stuck or sched.abort or not sched.queues:
+        return None
+    q = sched.queues[0]
+
+    def snap():
+        return {"live": len(sched.live_workers()), "stops": sum(1 for x in q.items if x is StopCommand), "queue": len(q.items),
+                "results": sum(len(x.items) for x in sched.queues[1:])}
+
+    a = snap()
+    try:
+        sched.drain(list(range(P + 1)) * 2)
+    except S.Abort:
+        return {"at_return": a, "after": None}
+    return {"at_return": a, "after": snap()}
+
+
+def runjobs_shutdown_check(ctx, case, ob, ans):
+    life = ob.get("life")
+    if not life or not ans["done"]:
+        return
+    a, b = life["at_return"], life["after"]
+    ctx.hit("run_jobs:shutdown-observed")
+    if a["stops"] != a["live"] or a["queue"] != a["stops"] or a["results"]:
+        ctx.disagree("C14.run_jobs.stop-tokens", case, a, {"stops": ans["stop_tokens"], "live": ans["live_workers"]})
+        ctx.fail("C14-runjobs-stop-tokens", "when Process.run_jobs returns the shared queue does not hold exactly one stop token per "
+                 "worker that has not left (or a job / result is still queued)", case, a)
+    if ans["stop_tokens"] != ans["live_workers"] or ans["live_workers_after"] or ans["queue_after"]:
+        ctx.disagree("C14.run_jobs.model-contradicts-theorem", case, None, ans)
+    down = b is not None and b["live"] == 0 and b["queue"] == 0 and b["results"] == 0
+    if down != (ans["live_workers_after"] == 0 and ans["queue_after"] == 0):
+        ctx.disagree("C14.run_jobs.shutdown", case, b, {"live": ans["live_workers_after"], "queue": ans["queue_after"]})
+    if not down:
+        ctx.fail("C14-runjobs-shutdown-incomplete", "after Process.run_jobs returned and every worker was served, a worker is still "
+                 "running or the shared queue is not empty", case, b)
+    soft(ctx, "run_jobs: workers still running when run_jobs returns", a["live"] == ans["live_workers"])
+
+
+# ---------------------------------------------------------------------------------------------
 # Process.run_jobs sessions
 
 
@@ -312,9 +563,11 @@ def real_runjobs_session(P, js, schedule, numbers=None):
         except Exception as e:  # noqa
             raised = f"Other:{type(e).__name__}:{str(e)[:60]}"
         finally:
+            pos_at_start = sched.pos_at_first_spawn or 0
+            life = runjobs_shutdown_obs(sched, P, stuck)
             sched.shutdown()
     return script, {
-        "pos_at_start": sched.pos_at_first_spawn or 0,
+        "pos_at_start": pos_at_start, "life": life,
         "yielded": out, "raised": raised, "stuck": stuck, "evaluated": sorted(u for _, u in script.log),
         "stale_fired": sched.stale_fired, "worker_errors": sched.worker_errors,
         "eval_order": [u for _, u in script.log],
@@ -399,6 +652,7 @@ def one_runjobs_case(ctx, case, label="gen"):
         soft(ctx, "run_jobs: order in which the results were yielded", [canon_model(it) for it in ans["yielded"]] == ob["yielded"])
         soft(ctx, "run_jobs: order in which the jobs were performed", [numbers[i] if i < len(numbers) else i for i in ans["performed"]] == ob["eval_order"])
     runjobs_oracle(ctx, script, ob, dict(case, label=label))
+    runjobs_shutdown_check(ctx, dict(case, label=label), ob, ans)
 
 
 # ---------------------------------------------------------------------------------------------
@@ -792,6 +1046,10 @@ def dispatch(ctx, case, label="gen"):
             one_runjobs_case(ctx, case, label)
         elif kind == "init":
             one_init_case(ctx, case, label)
+        elif kind == "fair":
+            one_fair_case(ctx, case, label)
+        elif kind == "life":
+            one_life_case(ctx, case, label)
         elif kind == "caller":
             import c16
             c16.install_pool()
@@ -827,7 +1085,8 @@ def run(ctx):
         "multiprocessing.Queue is a FIFO whose empty() may report a stale True; a process is a sequential actor "
         "(real code run in a thread, one queue operation per scheduler turn); pickling of jobs/results is not modelled",
         "the function mapped is deterministic and has no cross-talk between evaluations (scripted outcomes)",
-        "termination is observed (fair round-robin continuation of every schedule), not proved",
+        "termination of map under fair schedules is a theorem (bound in fair rounds); for run_jobs it is observed (fair "
+        "round-robin continuation of every schedule), not proved; join timeouts / OS teardown of processes are not modelled",
     ]
     for f in sorted((VERIF / "corpus" / "C14").glob("*.json")):
         dispatch(ctx, json.loads(f.read_text()), f.name)
@@ -838,6 +1097,10 @@ def run(ctx):
         dispatch(ctx, gen_runjobs_case(ctx.rng))
     for k in range(ctx.n(80, 800)):
         dispatch(ctx, gen_init_case(ctx.rng))
+    for k in range(ctx.n(60, 600)):
+        dispatch(ctx, gen_fair_case(ctx.rng))
+    for k in range(ctx.n(150, 2000)):
+        dispatch(ctx, gen_life_case(ctx.rng))
     exhaustive_small(ctx)
     ctx.notes["scheduled_sessions_wall_s"] = round(time.time() - t0, 1)
     real_process_runs(ctx, ctx.n(3, 40))
